@@ -11,7 +11,8 @@ LEVEL = "exploration"
 RULE = ("Hypothesis-generated scripted histories for the 8 buffered classes: k in {2,3} objects bound "
         "to ONE file, put into a COMMON buffered state (one Class.buffer_backend() context; or "
         "per-object obj.buffered contexts all entered before the first buffered operation and all "
-        "exited after the last, in a generated permutation; or both nested), then a generated "
+        "exited after the last, in a generated permutation; or both nested; the backend-wide context in a "
+        "third of the cases with a small capacity so that flushes are forced mid-session), then a generated "
         "sequence of (object or retained nested handle, read|mutator). Touch order (hence the LIFO "
         "flush order of the class-wide flush) is generated through the reads. No extra observation "
         "is made inside the context. Oracle: every generated read equals the plain model (all "
@@ -55,7 +56,10 @@ def _gen(ci, dom, plan):
         if ph == "enter":
             if plan["todo"]:
                 kind, r = plan["todo"].pop(0)
-                return {"t": "enter_" + kind, "h": r}
+                step = {"t": "enter_" + kind, "h": r}
+                if kind == "cls" and plan.get("cap") is not None:
+                    step["cap"] = plan["cap"]      # small capacity: flushes are forced mid-session
+                return step
             plan["phase"] = "buf"
             ph = "buf"
         if ph == "buf":
@@ -208,6 +212,9 @@ def run_shard(spec, seed, tier, active):
             else:
                 plan["script"] = [("r", r_), ("w", w_)]
                 plan["exit_first"] = r_
+        if plan["mode"] in ("cls", "both") and draw(st.integers(0, 2)) == 0:
+            plan["cap"] = draw(st.sampled_from([0, 1, 2, 12, 30])) if ci.buffered == "serialized" \
+                else draw(st.sampled_from([0, 1]))
         if draw(st.integers(0, 4)) == 0:
             a_, b_ = draw(st.permutations(range(k)))[:2]
             plan["readers"] = set()
@@ -216,7 +223,8 @@ def run_shard(spec, seed, tier, active):
                              check_frozen=False, excl=excl)
         acc.excluded += w.excluded
         nt, roles, order = _analyse(w, plan["mode"])
-        cnt = {f"mode={plan['mode']}": 1, f"k={k}": 1, "nontrivial_shape": int(nt)}
+        cnt = {f"mode={plan['mode']}": 1, f"k={k}": 1, "nontrivial_shape": int(nt),
+               "small_capacity": int(plan.get("cap") is not None)}
         sample = {"class": ci.name, "mode": plan["mode"], "initial": repr(init), "steps": w.log[:18]} if nt else None
         acc.case([h64(ci.name, plan["mode"], k, roles, len(order))] + [h64(ci.name, plan["mode"], w.log)] if nt else (), sample, cnt)
 
